@@ -84,6 +84,14 @@ def run_case(case):
             fam = str(rng.choice(["NLP", "NLP", "NLP", "QP", "DEG", "INF", "F32QP", "INTQP"]))
             gseed = case["seed"] + [k]
             spec = make_spec(fam, gseed)
+            exact_feas = bool(spec.m and rng.random() < 0.2)
+            if exact_feas:
+                # homogeneous rows: at the origin (slacks at 0) every internal constraint value is exactly 0.0, so
+                # that y + rho*c(x) is the same vector for every rho
+                spec.e = np.zeros(spec.m)
+                eq = spec.cons_lb == spec.cons_ub
+                spec.cons_lb[eq] = 0.0
+                spec.cons_ub[eq] = 0.0
             sc = str(rng.choice(["none", "none", "custom"]))
             weights = C.scaling_weights(rng, spec.n, spec.m, span=4) if sc == "custom" else None
             fmt = str(rng.choice(["coo", "csr", "csc"]))
@@ -95,6 +103,9 @@ def run_case(case):
             D = R.internal_dense(R.user_dense(spec), w)
             n, m = D.n, D.m
             x = gen_point(rng, D)
+            if exact_feas:
+                x = np.zeros(D.n)
+                bump("points_with_exactly_zero_constraints", int(not np.any(D.c(x))))
             y = rng.normal(size=m) * 10.0 ** rng.uniform(-2, 2)
             rho = float(10.0 ** rng.uniform(-8, 2))
             dt = float(10.0 ** rng.uniform(-6, 3))
@@ -104,6 +115,7 @@ def run_case(case):
             atol = params.active_tol
             if m:
                 bump("jacobian_dtype_%s" % prob.cons_jac(np.array(spec.x0, dtype=float)).dtype)
+            bump("sparse_array_callbacks", int(fmt.endswith("a")))
             it = Iterate(tp, params, x, y, T.evaluator)
             ith = Iterate(tp, params, xh, yh, T.evaluator)
             key = {"family": fam, "scaling": sc}
@@ -239,6 +251,17 @@ def run_case(case):
                     bad("deriv", "row %d of the generalised Jacobian is not an identity row for an active component" % j)
                     break
             cmp("deriv_at", func.deriv_at(it, rho, act).toarray(), dFref, dmag)
+            # the same iterate object asked again under other penalties (one iterate serves a whole sequence of
+            # penalty values and step attempts)
+            for rho2 in (rho * 10.0, rho * 0.03):
+                Hmag2 = D.Habs(x, ya + rho2 * ca) + rho2 * Ja.T.dot(Ja)
+                H2 = it.aug_lag_deriv_xx(rho2)
+                cmp("aug_lag_deriv_xx(other rho)", H2.toarray() if sps.issparse(H2) else np.asarray(H2),
+                    R.aug_lag_dxx(D, x, y, rho2), Hmag2)
+                dmag2 = np.block([[np.eye(n) + dt * Hmag2, dt * Ja.T], [dt * Ja, np.eye(m)]])
+                cmp("deriv_at(other rho)", func.deriv_at(it, rho2, act).toarray(), R.implicit_dF(D, x, y, rho2, dt, act), dmag2)
+                cmp("aug_lag_deriv_x(other rho)", it.aug_lag_deriv_x(rho2), R.aug_lag_dx(D, x, y, rho2),
+                    ga + Ja.T.dot(rho2 * ca + ya))
             # scaled function
             sF, _ = R.scaled_F(D, xh, yh, x, y, rho, dt, act)
             sFmag = np.concatenate([lam * np.abs(x) + lam * np.abs(xh) + mag_dx + lam * (finite_lb + finite_ub) * act,
@@ -250,7 +273,8 @@ def run_case(case):
             # keep_rows
             M = rng.normal(size=(n, n + 1)) * (rng.random(size=(n, n + 1)) < 0.6)
             filt = rng.random(size=n) < 0.6
-            kr = keep_rows({"coo": sps.coo_matrix, "csr": sps.csr_matrix, "csc": sps.csc_matrix}[fmt](M), filt)
+            kr = keep_rows({"coo": sps.coo_matrix, "csr": sps.csr_matrix, "csc": sps.csc_matrix, "cooa": sps.coo_array,
+                                "csra": sps.csr_array, "csca": sps.csc_array}[fmt](M), filt)
             bump("compared_keep_rows")
             if kr.shape != M.shape or not np.array_equal(kr.toarray(), M * filt[:, None]):
                 bad("keep_rows", "result differs from zeroing the filtered rows")
@@ -279,12 +303,13 @@ def finalize(agg, tier):
     return {
         "rule": "generated NLP/QP/degenerate/infeasible specs and QPs whose matrices are handed over as float32 / integer / bool sparse matrices (optionally with custom power-of-two scaling) x points with "
                 "components inside, on, within +-1e-9 of and outside the bounds x random multipliers (1e-2..1e2), "
-                "rho in 1e-8..1e2, dt in 1e-6..1e3, computed and random active sets, tau in 1e-3..10; non-trivial = all "
+                "rho in 1e-8..1e2 (and the same iterate object asked again under 10 rho and 0.03 rho; a fifth of the cases at a point where every internal constraint value is exactly 0.0), dt in 1e-6..1e3, computed and random active sets, tau in 1e-3..10; non-trivial = all "
                 "quantities of the case were compared; distinct by (spec seed, scaling)",
         "floors": {"compared_aug_lag_deriv_xx": 1000, "compared_value_at": 500, "compared_deriv": 1000,
                    "compared_active_set": 500, "active_set_nonempty": 200, "compared_locally_infeasible": 500,
                    "compared_keep_rows": 1000, "compared_scaled_deriv": 1000, "jacobian_dtype_float32": 100,
-                   "jacobian_dtype_bool": 30},
+                   "jacobian_dtype_bool": 30, "points_with_exactly_zero_constraints": 300,
+                   "compared_aug_lag_deriv_xx(other rho)": 2000},
         "assumptions": ["tolerance 1e-12 x (sum of absolute values of all terms) covers summation-order rounding only",
                         "active-set comparisons are skipped when the reference projection point lies within 1e-10 "
                         "(relative) of the 1e-8 activity threshold"],
